@@ -211,8 +211,17 @@ def async_suite(chk, n_graphs, variants, max_nodes=4, nproc=8, gen=None, model_s
                     # change the expected delay of one node and of one non-skipped connection (phases downstream move)
                     import copy
                     rr = random.Random(G["gid"] * 7919 + 13); cfg2 = copy.deepcopy(G["cfg"]); bt = {}
+                    if G["cfg"].get("_between"):
+                        # the configuration family prescribes which expected delays the user changes between the episodes
+                        for k_, v_ in G["cfg"]["_between"].items():
+                            (cfg2["conns"] if ">" in k_ else cfg2["nodes"])[k_]["exp"] = v_; bt[k_] = v_
+                        j["between"] = bt; G["between"] = bt; G["cfg_after"] = cfg2
+                        jobs.append(j); continue
                     n = rr.choice(sorted(cfg2["nodes"])); cfg2["nodes"][n]["exp"] = cfg2["nodes"][n]["exp"] + rr.choice([1, 2, 3]); bt[n] = cfg2["nodes"][n]["exp"]
                     cs = sorted(k for k, c in cfg2["conns"].items() if not c["skip"])
+                    # prefer a buffered-jitter connection: its expected arrivals (seq * period + phase) must follow the new delay as well
+                    bs = [k for k in cs if cfg2["conns"][k]["jitter"] == "BUFFER" and not cfg2["conns"][k]["blocking"]]
+                    if bs and rr.random() < 0.7: cs = bs
                     if cs:
                         k = rr.choice(cs); cfg2["conns"][k]["exp"] = cfg2["conns"][k]["exp"] + rr.choice([1, 2]); bt[k] = cfg2["conns"][k]["exp"]
                     j["between"] = bt; G["between"] = bt; G["cfg_after"] = cfg2
